@@ -46,7 +46,14 @@ func runC04(c *pure.Ctx) {
 					lus = []*int{nil, ip(*ls - 5), ip(*ls + 5), ip(*ls), ip(-d + 5), ip(-d - 5)}
 				}
 				for _, lu := range lus {
-					for _, nb := range []*int{nil, ip(-40), ip(-20), ip(25)} {
+					nbs := []*int{nil, ip(-40), ip(-20), ip(25)}
+					if ls != nil && *ls >= -120 {
+						nbs = append(nbs, ip(*ls)) // notBefore exactly on the last recorded schedule time
+					}
+					if lu != nil {
+						nbs = append(nbs, ip(*lu))
+					}
+					for _, nb := range nbs {
 						for _, k := range caps {
 							for _, st := range starts {
 								if c.Expired() {
